@@ -140,4 +140,12 @@ CHECKS = {
              "checks": ["c07-upgrade"]},
         ],
     },
+    "C14": {
+        "level": "exploration",
+        "groups": [
+            {"name": "c14", "run": "^TestC14_", "shards": {"quick": 16, "thorough": 16},
+             "timeout": {"quick": 900, "thorough": 3000},
+             "checks": ["c14-heartbeat"]},
+        ],
+    },
 }
